@@ -20,6 +20,12 @@ func taintFrom(f *core.Func, seeds ...types.Object) map[types.Object]bool {
 
 // taintFromExcl is taintFrom with a set of variables that never become tainted (the key itself, contexts).
 func taintFromExcl(f *core.Func, excl map[types.Object]bool, seeds ...types.Object) map[types.Object]bool {
+	return taintFromPolicy(f, excl, nil, seeds...)
+}
+
+// taintFromPolicy: cut, when non-nil, names calls whose results and written-through arguments do NOT
+// carry the taint of their arguments (e.g. archive lookups keyed by a request value return archive data).
+func taintFromPolicy(f *core.Func, excl map[types.Object]bool, cut func(call *ast.CallExpr) bool, seeds ...types.Object) map[types.Object]bool {
 	info := f.Pkg.TypesInfo
 	t := map[types.Object]bool{}
 	for _, s := range seeds {
@@ -34,6 +40,9 @@ func taintFromExcl(f *core.Func, excl map[types.Object]bool, seeds ...types.Obje
 		found := false
 		ast.Inspect(n, func(m ast.Node) bool {
 			if found {
+				return false
+			}
+			if c, ok := m.(*ast.CallExpr); ok && cut != nil && cut(c) {
 				return false
 			}
 			if id, ok := m.(*ast.Ident); ok {
@@ -161,6 +170,9 @@ func taintFromExcl(f *core.Func, excl map[types.Object]bool, seeds ...types.Obje
 					return true
 				}
 				if core.BuiltinName(info, s) != "" && core.BuiltinName(info, s) != "copy" {
+					return true
+				}
+				if cut != nil && cut(s) {
 					return true
 				}
 				any := false
